@@ -131,12 +131,12 @@ def prepare_common(tier: str, tiers: dict) -> None:
 def describe_common(what: str) -> dict:
     return {
         "rule": (
-            "one evaluation = one work item: a (model, target) pair whose fault-free run is "
+            "one work item = a (model, target) pair whose fault-free run is "
             "recorded first, then re-run once per fault: 'slice' items enumerate every "
             "(seam event in the output dir) x (applicable errno, plus partial writes) "
             "exhaustively for the small common models; 'sample' items draw single and double "
             "faults, state faults (directory where a file is needed, file where a directory is "
-            "needed, stale longer files) and benign short-write runs. distinct = distinct "
+            "needed, stale longer files) and benign short-write runs; one evaluation = one faulted run. distinct = distinct "
             "(target, operation kind, errno/fault kind, outcome class) combinations exercised "
             "with a fault that actually fired. " + what
         ),
@@ -290,6 +290,7 @@ def execute_common(plan: dict, judge: str) -> dict:
             if res.rc is None and res.exc is None:
                 raise kernel.HarnessError("actor ended without result and without exception")
             stats["faulted_runs"] = stats.get("faulted_runs", 0) + 1
+            stats["evaluations"] = stats.get("evaluations", 0) + 1
             stats["seam_steps"] = stats.get("seam_steps", 0) + sim.seq
             fired = len(sim.faults_fired)
             for f3 in sim.faults_fired:
